@@ -68,6 +68,10 @@ for r in (SKIP, False, REMOVE, Ellipsis, 42, BREAK, None):
 
 
 def extra_obligations(world, tier, seed):
+    return key_table_obligations() + parse_order_obligations(world)
+
+
+def key_table_obligations():
     import dataclasses
     from graphql.language import ast
     from graphql.language.ast import QUERY_DOCUMENT_KEYS, Node
@@ -85,7 +89,6 @@ def extra_obligations(world, tier, seed):
                     "status": "discharged" if ok else "refuted", "backend": "finite",
                     "detail": f"keys={keys} fields={sorted(nodef)}",
                     "model": None if ok else {"kind": c.kind, "keys": keys, "node_fields": sorted(nodef)}})
-    out += parse_order_obligations(world)
     return out
 
 
